@@ -4,12 +4,16 @@
  * one runnable at a time (semaphore baton).  Scheduling points: every access to the library's writable
  * static data (sections ps_data / ps_bss), and thread exit.  Depth-first search over choice prefixes
  * with a visited set on (shared-section contents, per-thread progress, per-thread hash of values read,
- * running thread).  Oracles per execution: (race) some byte of shared memory touched by two threads,
- * at least one of them writing, or a thread touching another thread's seed memory; (serial
- * equivalence) each thread's transcript equals the transcript of its script run alone. */
+ * running thread).  Oracles per execution: (race) two accesses to one byte of shared memory by different
+ * threads, at least one a write, not ordered by happens-before (vector clocks; the only happens-before
+ * edges are C11 atomic operations of the library itself, which the runtime below also intercepts and treats
+ * as scheduling points - a library without atomics has no edges at all), or a thread touching another
+ * thread's seed memory; (serial equivalence) each thread's transcript equals the transcript of its script
+ * run alone; (progress) no thread spins forever on an atomic that nobody else can change. */
 #include "h.h"
 #include <pthread.h>
 #include <semaphore.h>
+#include <setjmp.h>
 
 extern char __start_ps_data[] __attribute__((weak)), __stop_ps_data[] __attribute__((weak));
 extern char __start_ps_bss[] __attribute__((weak)), __stop_ps_bss[] __attribute__((weak));
@@ -21,11 +25,23 @@ static volatile int active, cur, nfin, finished[MAXT];
 static int *prefix, prefix_len, step, *choices, *nen, *preempt_at;
 static uint64_t *keys;
 static uint64_t rh[MAXT]; static int pts[MAXT];
-static uint8_t *acc_r, *acc_w; static size_t shsz, dsz_, bsz_;
+static size_t shsz, dsz_, bsz_;
+/* happens-before race detector: vector clocks per thread, per shared byte the last write (thread+1, clock) and the last read clock per thread,
+ * per shared byte (used as the address of an atomic object) a release clock */
+static uint32_t VC[MAXT][MAXT], *w_thr, *w_clk, *r_clk, *l_clk; static int race_found; static size_t race_off; static char race_msg[240];
+static int n_atomic_ops;               /* atomic operations of the library seen in this execution */
+/* waiting: a thread that repeats an atomic operation on one object, observes the same value and changes nothing, while no shared byte was
+ * written in between, is spinning; it is disabled until some shared byte is written.  Nobody enabled but somebody unfinished = deadlock. */
+static uint64_t wepoch; static int waiting[MAXT]; static uint64_t wait_epoch[MAXT]; static size_t sp_off[MAXT]; static uint64_t sp_val[MAXT], sp_epoch[MAXT]; static int sp_set[MAXT];
+#define STALL_LIMIT 64
+static int deadlock, abort_exec, stalled; static jmp_buf jb[MAXT]; static int on_main_thread;
 static int PB = -1, preempts;           /* preemption bound, -1 = unbounded */
 static int cross_thread;                /* a thread touched another thread's arena */
 static int points_overflow;             /* an execution had more scheduling points than the explorer records */
 static char cross_msg[200];
+static int SYNC_ONLY;       /* scheduling points only at the library's atomic operations (and thread end); plain accesses still feed the race detector */
+static double sub_deadline;
+static int POOLED; static uint64_t harness_key(void); static void harness_reset(void); static const char *harness_note(void);
 #define ARENA 8192
 static char arena[MAXT][ARENA] __attribute__((aligned(64))); static size_t apos[MAXT];
 
@@ -36,19 +52,42 @@ static inline int shared_off(void *a, size_t *off) {
     return 0;
 }
 static uint64_t shhash(void) { uint64_t h = 1; for (size_t i = 0; i < dsz_; i++) h = mix64(h, (uint8_t)__start_ps_data[i]); for (size_t i = 0; i < bsz_; i++) h = mix64(h, (uint8_t)__start_ps_bss[i]); return h; }
-static uint64_t statekey(void) { uint64_t h = shhash(); for (int t = 0; t < NT; t++) { h = mix64(h, rh[t]); h = mix64(h, (uint64_t)pts[t]); h = mix64(h, (uint64_t)finished[t]); } h = mix64(h, (uint64_t)cur); if (PB >= 0) h = mix64(h, (uint64_t)preempts); return h ? h : 1; }
+static uint64_t statekey(void) { uint64_t h = shhash(); for (int t = 0; t < NT; t++) { h = mix64(h, rh[t]); h = mix64(h, (uint64_t)pts[t]); h = mix64(h, (uint64_t)finished[t]); h = mix64(h, (uint64_t)(waiting[t] && wait_epoch[t] == wepoch)); for (int u = 0; u < NT; u++) h = mix64(h, VC[t][u]); } h = mix64(h, (uint64_t)cur); h = mix64(h, harness_key()); if (PB >= 0) h = mix64(h, (uint64_t)preempts); return h ? h : 1; }
 
+static int enabled_t(int t) { return !finished[t] && !(waiting[t] && wait_epoch[t] == wepoch); }
+static void leave_execution(int me) {      /* abandon the library frames of a thread that can never finish (deadlock) */
+    longjmp(jb[me], 1);
+}
+static void switch_to(int nx) {
+    if (nx == cur) return;
+    int me = cur, me_done = finished[me]; cur = nx; sem_post(&baton[nx]);
+    if (!me_done) { while (sem_wait(&baton[me]) != 0) { } if (abort_exec) leave_execution(me); }      /* finished[] may be reset by the next execution as soon as the post is out */
+}
 static void point(void) {
     int en[MAXT], n = 0;
-    if (!finished[cur]) en[n++] = cur;
-    for (int t = 0; t < NT; t++) if (t != cur && !finished[t]) en[n++] = t;
-    if (n == 0) return;
+    if (abort_exec && !finished[cur]) leave_execution(cur);
+    if (enabled_t(cur)) en[n++] = cur;
+    for (int t = 0; t < NT; t++) if (t != cur && enabled_t(t)) en[n++] = t;
+    if (n == 0) {
+        int unfinished = 0; for (int t = 0; t < NT; t++) if (!finished[t]) unfinished++;
+        if (!unfinished) return;
+        if (++stalled > STALL_LIMIT) {          /* every unfinished thread has been spinning, taking turns, and nothing changed: nobody can ever finish */
+            deadlock = 1; abort_exec = 1;
+            if (!finished[cur]) leave_execution(cur);
+            for (int t = 0; t < NT; t++) if (!finished[t]) { cur = t; sem_post(&baton[t]); return; }
+            return;
+        }
+        /* only spinners are left: they take turns (deterministic, not a choice point) */
+        int nx = cur; for (int k = 1; k <= NT; k++) { int t = (cur + k) % NT; if (!finished[t]) { nx = t; break; } }
+        waiting[nx] = 0; switch_to(nx); return;
+    }
     if (step >= MAXP) {          /* keep running without further switching; the race oracle still sees every access */
         points_overflow = 1;
-        if (!finished[cur]) return;
-        int nx = en[0], me = cur; cur = nx; (void)me; sem_post(&baton[nx]); return;      /* a finished thread must still hand the baton on */
+        if (enabled_t(cur)) return;
+        switch_to(en[0]);       /* a finished or waiting thread must still hand the baton on */
+        return;
     }
-    int running_enabled = !finished[cur];
+    int running_enabled = enabled_t(cur);
     int navail = n;
     if (PB >= 0 && running_enabled && preempts >= PB) navail = 1;      /* no preemption budget left: keep running */
     keys[step] = statekey(); nen[step] = navail;
@@ -57,25 +96,82 @@ static void point(void) {
     preempt_at[step] = (running_enabled && c > 0);
     if (preempt_at[step]) preempts++;
     choices[step++] = c;
-    int nx = en[c];
-    if (nx != cur) { int me = cur; int me_done = finished[me]; cur = nx; sem_post(&baton[nx]); if (!me_done) { while (sem_wait(&baton[me]) != 0) { } } }   /* finished[] may be reset by the next execution as soon as the post is out */
+    waiting[en[c]] = 0;
+    switch_to(en[c]);
+}
+static void note_race(size_t off, int me, int other, int w, const char *what) {
+    if (race_found) return;
+    race_found = 1; race_off = off;
+    snprintf(race_msg, sizeof race_msg, "data race on library static data: byte %zu of the writable sections: %s by thread %d is not ordered after a %s by thread %d (no happens-before edge between them)", off, w ? "write" : "read", me, what, other);
 }
 static void access_cb(void *a, size_t sz, int w) {
     size_t off;
     if (!active) return;
     if ((char *)a >= arena[0] && (char *)a < arena[0] + sizeof arena) {
         int owner = (int)(((char *)a - arena[0]) / ARENA);
-        if (owner != cur && !cross_thread) { cross_thread = 1; snprintf(cross_msg, sizeof cross_msg, "thread %d %s seed memory of thread %d", cur, w ? "wrote" : "read", owner); }
+        if (owner != cur && !cross_thread && !POOLED) { cross_thread = 1; snprintf(cross_msg, sizeof cross_msg, "thread %d %s seed memory of thread %d", cur, w ? "wrote" : "read", owner); }
         return;
     }
     if (!shared_off(a, &off)) return;
+    if (!SYNC_ONLY) point();
     int me = cur;
-    point();
-    for (size_t i = 0; i < sz && off + i < shsz; i++) { if (w) acc_w[off + i] |= (uint8_t)(1 << me); else acc_r[off + i] |= (uint8_t)(1 << me); }
+    for (size_t i = 0; i < sz && off + i < shsz; i++) {
+        size_t b = off + i;
+        if (w_thr[b] && (int)w_thr[b] - 1 != me && w_clk[b] > VC[me][w_thr[b] - 1]) note_race(b, me, (int)w_thr[b] - 1, w, "write");
+        if (w) {
+            for (int u = 0; u < NT; u++) if (u != me && r_clk[b * MAXT + (size_t)u] > VC[me][u]) note_race(b, me, u, w, "read");
+            w_thr[b] = (uint32_t)me + 1; w_clk[b] = VC[me][me];
+        } else r_clk[b * MAXT + (size_t)me] = VC[me][me];
+    }
     if (!w) { uint64_t v = 0; memcpy(&v, a, sz > 8 ? 8 : sz); rh[me] = mix64(rh[me], mix64((uint64_t)off, v)); }
-    else rh[me] = mix64(rh[me], 0x77 + (uint64_t)off);
+    else { rh[me] = mix64(rh[me], 0x77 + (uint64_t)off); wepoch++; stalled = 0; }
+    sp_set[me] = 0;
     pts[me]++;
 }
+/* ---- C11 atomics of the library (gcc -fsanitize=thread turns them into these calls).  Each is a scheduling point and a
+ * synchronisation: every operation acquires and releases the object's clock (memory orders weaker than seq_cst are not
+ * modelled: the scheduler explores sequentially consistent interleavings only). */
+static int atomic_enter(volatile void *a, size_t *off) {
+    if (!active) return 0;
+    if (!shared_off((void *)a, off)) return 0;
+    point();
+    return 1;
+}
+static void atomic_leave(size_t off, uint64_t observed, int changed, int is_store) {
+    int me = cur; n_atomic_ops++;
+    if (!changed && !is_store && sp_set[me] && sp_off[me] == off && sp_val[me] == observed && sp_epoch[me] == wepoch) {
+        /* the same operation on the same object saw the same value again and nothing shared was written in between: a spin.
+         * The repeated attempt leaves the thread's state as it was (no progress, no new clock) and the thread yields. */
+        waiting[me] = 1; wait_epoch[me] = wepoch;
+        point();
+        return;
+    }
+    uint32_t *L = l_clk + off * MAXT;
+    for (int u = 0; u < NT; u++) { if (L[u] > VC[me][u]) VC[me][u] = L[u]; }
+    for (int u = 0; u < NT; u++) { if (VC[me][u] > L[u]) L[u] = VC[me][u]; }
+    VC[me][me]++;
+    rh[me] = mix64(rh[me], mix64(0xA70 + (uint64_t)off, is_store ? 0 : observed));
+    pts[me]++;
+    if (changed) { wepoch++; stalled = 0; }
+    if (changed || is_store) { sp_set[me] = 0; return; }
+    sp_set[me] = 1; sp_off[me] = off; sp_val[me] = observed; sp_epoch[me] = wepoch;
+}
+#define ATOMICS(N, T) \
+    T __tsan_atomic##N##_load(const volatile T *a, int mo) { (void)mo; size_t off; int s = atomic_enter(a, &off); T v = __atomic_load_n(a, __ATOMIC_SEQ_CST); if (s) atomic_leave(off, (uint64_t)v, 0, 0); return v; } \
+    void __tsan_atomic##N##_store(volatile T *a, T v, int mo) { (void)mo; size_t off; int s = atomic_enter(a, &off); T o = __atomic_exchange_n(a, v, __ATOMIC_SEQ_CST); if (s) atomic_leave(off, 0, o != v, 1); } \
+    T __tsan_atomic##N##_exchange(volatile T *a, T v, int mo) { (void)mo; size_t off; int s = atomic_enter(a, &off); T o = __atomic_exchange_n(a, v, __ATOMIC_SEQ_CST); if (s) atomic_leave(off, (uint64_t)o, o != v, 0); return o; } \
+    T __tsan_atomic##N##_fetch_add(volatile T *a, T v, int mo) { (void)mo; size_t off; int s = atomic_enter(a, &off); T o = __atomic_fetch_add(a, v, __ATOMIC_SEQ_CST); if (s) atomic_leave(off, (uint64_t)o, v != 0, 0); return o; } \
+    T __tsan_atomic##N##_fetch_sub(volatile T *a, T v, int mo) { (void)mo; size_t off; int s = atomic_enter(a, &off); T o = __atomic_fetch_sub(a, v, __ATOMIC_SEQ_CST); if (s) atomic_leave(off, (uint64_t)o, v != 0, 0); return o; } \
+    T __tsan_atomic##N##_fetch_and(volatile T *a, T v, int mo) { (void)mo; size_t off; int s = atomic_enter(a, &off); T o = __atomic_fetch_and(a, v, __ATOMIC_SEQ_CST); if (s) atomic_leave(off, (uint64_t)o, (T)(o & v) != o, 0); return o; } \
+    T __tsan_atomic##N##_fetch_or(volatile T *a, T v, int mo) { (void)mo; size_t off; int s = atomic_enter(a, &off); T o = __atomic_fetch_or(a, v, __ATOMIC_SEQ_CST); if (s) atomic_leave(off, (uint64_t)o, (T)(o | v) != o, 0); return o; } \
+    T __tsan_atomic##N##_fetch_xor(volatile T *a, T v, int mo) { (void)mo; size_t off; int s = atomic_enter(a, &off); T o = __atomic_fetch_xor(a, v, __ATOMIC_SEQ_CST); if (s) atomic_leave(off, (uint64_t)o, v != 0, 0); return o; } \
+    T __tsan_atomic##N##_fetch_nand(volatile T *a, T v, int mo) { (void)mo; size_t off; int s = atomic_enter(a, &off); T o = __atomic_fetch_nand(a, v, __ATOMIC_SEQ_CST); if (s) atomic_leave(off, (uint64_t)o, (T)~(o & v) != o, 0); return o; } \
+    int __tsan_atomic##N##_compare_exchange_strong(volatile T *a, T *c, T v, int mo, int fmo) { (void)mo; (void)fmo; size_t off; int s = atomic_enter(a, &off); T e = *c; int ok = __atomic_compare_exchange_n(a, c, v, 0, __ATOMIC_SEQ_CST, __ATOMIC_SEQ_CST); if (s) atomic_leave(off, (uint64_t)*c ^ ((uint64_t)ok << 63), ok && e != v, 0); return ok; } \
+    int __tsan_atomic##N##_compare_exchange_weak(volatile T *a, T *c, T v, int mo, int fmo) { return __tsan_atomic##N##_compare_exchange_strong(a, c, v, mo, fmo); } \
+    T __tsan_atomic##N##_compare_exchange_val(volatile T *a, T c, T v, int mo, int fmo) { __tsan_atomic##N##_compare_exchange_strong(a, &c, v, mo, fmo); return c; }
+ATOMICS(8, uint8_t) ATOMICS(16, uint16_t) ATOMICS(32, uint32_t) ATOMICS(64, uint64_t)
+void __tsan_atomic_thread_fence(int mo) { (void)mo; }
+void __tsan_atomic_signal_fence(int mo) { (void)mo; }
 void __tsan_init(void) {}
 void __tsan_func_entry(void *p) { (void)p; }
 void __tsan_func_exit(void) {}
@@ -89,6 +185,8 @@ void __tsan_read_range(void *a, long n) { access_cb(a, (size_t)n, 0); }
 void __tsan_write_range(void *a, long n) { access_cb(a, (size_t)n, 1); }
 
 #define CUR cur
+#define CONCURRENT (!in_serial_reference)
+static int in_serial_reference;
 #include "e3_scripts.h"
 static volatile int quit_threads; static pthread_t TH[MAXT]; static int threads_up;
 static void *thr(void *arg) {
@@ -96,7 +194,7 @@ static void *thr(void *arg) {
     for (;;) {
         while (sem_wait(&baton[id]) != 0) { }
         if (quit_threads) return NULL;
-        script(id);
+        if (setjmp(jb[id]) == 0) script(id);
         finished[id] = 1; nfin++;
         if (nfin == NT) sem_post(&alldone); else point();
     }
@@ -104,26 +202,36 @@ static void *thr(void *arg) {
 static void threads_start(void) { quit_threads = 0; for (int t = 0; t < NT; t++) pthread_create(&TH[t], NULL, thr, (void *)(intptr_t)t); threads_up = NT; }
 static void threads_stop(void) { quit_threads = 1; for (int t = 0; t < threads_up; t++) sem_post(&baton[t]); for (int t = 0; t < threads_up; t++) pthread_join(TH[t], NULL); threads_up = 0; }
 static uint8_t *snap;
+static void shadow_reset(void) {
+    memset(w_thr, 0, shsz * 4); memset(w_clk, 0, shsz * 4); memset(r_clk, 0, shsz * MAXT * 4); memset(l_clk, 0, shsz * MAXT * 4);
+    memset(VC, 0, sizeof VC); for (int t = 0; t < MAXT; t++) VC[t][t] = 1;
+    race_found = 0; n_atomic_ops = 0; wepoch = 0; deadlock = 0; abort_exec = 0; stalled = 0;
+    for (int t = 0; t < MAXT; t++) { waiting[t] = 0; sp_set[t] = 0; }
+}
 static void run_once(void) {
     sec_load(snap);
-    memset(acc_r, 0, shsz); memset(acc_w, 0, shsz); step = 0; nfin = 0; preempts = 0; cross_thread = 0; points_overflow = 0;
+    shadow_reset(); step = 0; nfin = 0; preempts = 0; cross_thread = 0; points_overflow = 0;
     for (int t = 0; t < NT; t++) { finished[t] = 0; rh[t] = 0; pts[t] = 0; apos[t] = 0; tr[t] = 0; }
+    harness_reset();
     if (!threads_up) threads_start();
     cur = 0; active = 1; sem_post(&baton[0]); while (sem_wait(&alldone) != 0) { } active = 0;
 }
 /* serial reference: each script alone */
-static uint64_t ref_tr[MAXT]; static int ref_pts[MAXT];
+static uint64_t ref_tr[MAXT]; static int ref_pts[MAXT]; static int serial_stuck;
 static void serial_reference(void) {
-    int keepNT = NT;
+    int keepNT = NT; serial_stuck = 0; in_serial_reference = 1; pre_bad = 0;
     for (int t = 0; t < keepNT; t++) {
         /* run thread t alone: all others marked finished from the start */
-        sec_load(snap); memset(acc_r, 0, shsz); memset(acc_w, 0, shsz); step = 0; prefix_len = 0; preempts = 0;
+        sec_load(snap); shadow_reset(); step = 0; prefix_len = 0; preempts = 0;
         for (int u = 0; u < keepNT; u++) { finished[u] = (u != t); rh[u] = 0; pts[u] = 0; apos[u] = 0; tr[u] = 0; }
+        harness_reset();
         nfin = keepNT - 1; cur = t; active = 1;
-        script(t);            /* on the main thread: point() finds a single enabled thread and never switches */
-        active = 0;
+        if (setjmp(jb[t]) == 0) script(t);            /* on the main thread: point() finds a single enabled thread and never switches */
+        else { T(t, 0xDEAD10C); serial_stuck = 1; }
+        finished[t] = 1; active = 0;
         ref_tr[t] = tr[t]; ref_pts[t] = pts[t];
     }
+    in_serial_reference = 0;
 }
 
 /* visited set */
@@ -131,15 +239,14 @@ static uint64_t *hs; static size_t HB;
 static int seen_add(uint64_t k) { size_t i = (size_t)(k >> 11) & (HB - 1); while (hs[i]) { if (hs[i] == k) return 0; i = (i + 1) & (HB - 1); } hs[i] = k; return 1; }
 
 struct pf { int len; int *c; };
-struct outcome { long execs, states, trans, races, divergent, cross; int capped, timed_out; char first[2600]; char firstmsg[400]; int max_preempt; uint64_t distinct_tr; };
+struct outcome { long execs, states, trans, races, divergent, cross, stuck, atomics; int capped, timed_out; char first[2600]; char firstmsg[400]; int max_preempt; uint64_t distinct_tr; };
 
 static int check_exec(char *msg, size_t ml) {
-    int race = 0; size_t roff = 0;
-    for (size_t b = 0; b < shsz; b++) { unsigned w = acc_w[b], r = acc_r[b]; unsigned all = w | r; if (w && (all & (all - 1))) { race = 1; roff = b; break; } }
     int dv = -1; for (int t = 0; t < NT; t++) if (tr[t] != ref_tr[t]) { dv = t; break; }
-    if (race) { snprintf(msg, ml, "data race on library static data: byte %zu of the writable sections is written by one thread and accessed by another (writers mask %#x, readers mask %#x)", roff, acc_w[roff], acc_r[roff]); return 1; }
+    if (race_found) { snprintf(msg, ml, "%s", race_msg); return 1; }
     if (cross_thread) { snprintf(msg, ml, "%s", cross_msg); return 3; }
-    if (dv >= 0) { snprintf(msg, ml, "thread %d observed results that differ from a serial execution of its calls", dv); return 2; }
+    if (deadlock) { snprintf(msg, ml, "no progress: every unfinished thread spins on an atomic object of the library that no runnable thread can change (deadlock / livelock)"); return 4; }
+    if (dv >= 0) { snprintf(msg, ml, "thread %d observed results that differ from a serial execution of its calls%s", dv, harness_note()); return 2; }
     return 0;
 }
 static void explore(struct outcome *o, long max_states) {
@@ -148,7 +255,7 @@ static void explore(struct outcome *o, long max_states) {
     uint64_t trset[64]; int ntr = 0;
     while (top) {
         struct pf p = stkp[--top]; prefix_len = p.len; if (p.len) memcpy(prefix, p.c, (size_t)p.len * sizeof(int)); free(p.c);
-        if (past_deadline()) { o->timed_out = 1; break; }
+        if (past_deadline() || (sub_deadline > 0 && now_s() > sub_deadline)) { o->timed_out = 1; break; }
         run_once(); o->execs++;
         for (int i = 0; i < step; i++) {
             if (i < prefix_len) { continue; }     /* states inside the prefix were recorded by the execution that created it */
@@ -162,11 +269,12 @@ static void explore(struct outcome *o, long max_states) {
             }
         }
         if (preempts > o->max_preempt) o->max_preempt = preempts;
+        if (n_atomic_ops > o->atomics) o->atomics = n_atomic_ops;
         { uint64_t h = 0; for (int t = 0; t < NT; t++) h = mix64(h, tr[t]); int f = 0; for (int k = 0; k < ntr; k++) if (trset[k] == h) f = 1; if (!f && ntr < 64) trset[ntr++] = h; }
         char msg[400]; int v = check_exec(msg, sizeof msg);
         if (v) {
-            if (v == 1) o->races++; else if (v == 2) o->divergent++; else o->cross++;
-            if (!o->first[0]) { size_t l = 0; l += (size_t)snprintf(o->first, sizeof o->first, "case %d %d ", HARNESS, PB); int last = step; while (last > 0 && choices[last - 1] == 0) last--; for (int i = 0; i < last && l < sizeof o->first - 12; i++) l += (size_t)snprintf(o->first + l, sizeof o->first - l, "%s%d", i ? "," : "", choices[i]); snprintf(o->firstmsg, sizeof o->firstmsg, "%s", msg); }
+            if (v == 1) o->races++; else if (v == 2) o->divergent++; else if (v == 4) o->stuck++; else o->cross++;
+            if (!o->first[0]) { size_t l = 0; l += (size_t)snprintf(o->first, sizeof o->first, "case %d %s%d ", HARNESS, SYNC_ONLY ? "s" : "", PB); int last = step; while (last > 0 && choices[last - 1] == 0) last--; for (int i = 0; i < last && l < sizeof o->first - 12; i++) l += (size_t)snprintf(o->first + l, sizeof o->first - l, "%s%d", i ? "," : "", choices[i]); snprintf(o->firstmsg, sizeof o->firstmsg, "%s", msg); }
             break;       /* stop at the first violation: with a race the state space explodes */
         }
         if (points_overflow) { o->capped = 1; break; }
@@ -183,14 +291,14 @@ int main(int argc, char **argv) {
     dsz_ = __start_ps_data ? (size_t)(__stop_ps_data - __start_ps_data) : 0; bsz_ = __start_ps_bss ? (size_t)(__stop_ps_bss - __start_ps_bss) : 0; shsz = dsz_ + bsz_;
     polyseed_dependency d = { d_rand, d_kdf, d_mz, d_nfc, d_nfkd, d_time, d_alloc, d_free };
     polyseed_inject(&d); polyseed_enable_features(3);
-    acc_r = calloc(shsz + 1, 1); acc_w = calloc(shsz + 1, 1); snap = sec_copy();
+    w_thr = calloc(shsz + 1, 4); w_clk = calloc(shsz + 1, 4); r_clk = calloc((shsz + 1) * MAXT, 4); l_clk = calloc((shsz + 1) * MAXT, 4); snap = sec_copy();
     prefix = malloc(MAXP * sizeof(int)); choices = malloc(MAXP * sizeof(int)); nen = malloc(MAXP * sizeof(int)); preempt_at = malloc(MAXP * sizeof(int)); keys = malloc(MAXP * 8);
     for (int t = 0; t < MAXT; t++) sem_init(&baton[t], 0, 0); sem_init(&alldone, 0, 0);
-    for (int t = 0; t < MAXT; t++) { rseed s; memset(&s, 0, sizeof s); for (int i = 0; i < 19; i++) s.secret[i] = (uint8_t)(t * 53 + i * 11 + 1); s.secret[18] &= 0x3F; s.birthday = 100 + (unsigned)t; s.features = (unsigned)t & 3; ref_storage(&s, PRE_ST[t]); }
+    prep_inputs();
     HB = 1u << 24; hs = calloc(HB, 8);
     struct res *r = calloc(1, sizeof *r);
     if (a < argc && !strcmp(argv[a], "case")) {       /* case <harness> <pb> <choices> : re-execute one schedule, twice */
-        HARNESS = atoi(argv[a + 1]); PB = atoi(argv[a + 2]); NT = (HARNESS == 3 || HARNESS == 5) ? 3 : 2;
+        HARNESS = atoi(argv[a + 1]); SYNC_ONLY = argv[a + 2][0] == 's'; PB = atoi(argv[a + 2] + (SYNC_ONLY ? 1 : 0)); NT = (HARNESS == 3 || HARNESS == 5) ? 3 : 2; POOLED = HARNESS == 8;
         { polyseed_dependency dd = { d_rand, d_kdf, d_mz, d_nfc, d_nfkd, d_time, HARNESS == 6 ? NULL : d_alloc, HARNESS == 6 ? NULL : d_free }; polyseed_inject(&dd); polyseed_enable_features(3); free(snap); snap = sec_copy(); }
         serial_reference();
         int n = 0; char *dup = strdup(a + 3 < argc ? argv[a + 3] : ""); for (char *t = strtok(dup, ","); t; t = strtok(NULL, ",")) prefix[n++] = atoi(t);
@@ -200,34 +308,50 @@ int main(int argc, char **argv) {
     }
     int onlyH = 0; if (a + 1 < argc && !strcmp(argv[a], "only")) onlyH = atoi(argv[a + 1]);
     long max_states = G_thorough ? 6000000 : 1500000;
-    static const char *CLS[] = { "executions", "executions_with_race", "executions_not_serially_equivalent", NULL };
+    static const char *CLS[] = { "executions", "executions_with_race", "executions_not_serially_equivalent", "executions_without_progress", NULL };
     out_begin();
-    for (HARNESS = 1; HARNESS <= 6; HARNESS++) {
+    for (HARNESS = 1; HARNESS <= 8; HARNESS++) {
         if (onlyH && HARNESS != onlyH) continue;
         if (HARNESS == 5 && !G_thorough && !onlyH) continue;
         threads_stop();
-        NT = (HARNESS == 3 || HARNESS == 5) ? 3 : 2;
+        NT = (HARNESS == 3 || HARNESS == 5) ? 3 : 2; POOLED = HARNESS == 8;
         /* H6 runs with the optional allocator entries NULL, every other harness with per-thread arenas */
         { polyseed_dependency dd = { d_rand, d_kdf, d_mz, d_nfc, d_nfkd, d_time, HARNESS == 6 ? NULL : d_alloc, HARNESS == 6 ? NULL : d_free }; sec_load(snap); polyseed_inject(&dd); polyseed_enable_features(3); free(snap); snap = sec_copy(); }
         serial_reference();
         struct outcome o; memset(&o, 0, sizeof o);
-        PB = -1; explore(&o, max_states);
+        /* (F) every access to shared library data is a scheduling point, no preemption bound.  Complete for a library whose
+         * shared data is read-only after setup.  If it does not finish in its share of the time: (S) scheduling points only at
+         * the library's own atomic operations and thread ends, unbounded - sufficient when plain accesses are race free, which the
+         * happens-before detector decides on every execution; then (B) granularity F again with preemption bounds 0, 1, 2.. */
+        double t0 = now_s(), budget = G_deadline > 0 ? G_deadline - t0 : 600;
+        SYNC_ONLY = 0; PB = -1; sub_deadline = t0 + budget * 0.35; explore(&o, max_states); sub_deadline = 0;
         int complete = !o.capped && !o.timed_out && !o.first[0];
-        int bound_done = -1;
-        if (o.capped && !o.first[0]) {            /* too large for a complete search: iterative preemption bounding */
-            for (int pb = 0; pb <= (G_thorough ? 3 : 2); pb++) { struct outcome ob; memset(&ob, 0, sizeof ob); PB = pb; explore(&ob, max_states * 2); o.execs += ob.execs; o.states += ob.states; o.trans += ob.trans; o.races += ob.races; o.divergent += ob.divergent; o.cross += ob.cross; if (ob.first[0] && !o.first[0]) { strcpy(o.first, ob.first); strcpy(o.firstmsg, ob.firstmsg); } if (ob.capped || ob.timed_out || ob.first[0]) break; bound_done = pb; }
+        int bound_done = -1, sync_complete = 0; long sync_execs = 0;
+        if ((o.capped || o.timed_out) && !o.first[0]) {
+            struct outcome os; memset(&os, 0, sizeof os); SYNC_ONLY = 1; PB = -1; sub_deadline = now_s() + budget * 0.25; explore(&os, max_states); sub_deadline = 0; SYNC_ONLY = 0;
+            sync_execs = os.execs; sync_complete = !os.capped && !os.timed_out && !os.first[0];
+            o.execs += os.execs; o.states += os.states; o.trans += os.trans; o.races += os.races; o.divergent += os.divergent; o.cross += os.cross; o.stuck += os.stuck; if (os.atomics > o.atomics) o.atomics = os.atomics;
+            if (os.first[0]) { strcpy(o.first, os.first); strcpy(o.firstmsg, os.firstmsg); }
+        }
+        if ((o.capped || o.timed_out) && !o.first[0]) {            /* iterative preemption bounding at full granularity */
+            o.timed_out = 0;
+            for (int pb = 0; pb <= (G_thorough ? 3 : 2); pb++) { struct outcome ob; memset(&ob, 0, sizeof ob); PB = pb; explore(&ob, max_states * 2); o.execs += ob.execs; o.states += ob.states; o.trans += ob.trans; o.races += ob.races; o.divergent += ob.divergent; o.cross += ob.cross; o.stuck += ob.stuck; if (ob.atomics > o.atomics) o.atomics = ob.atomics; if (ob.first[0] && !o.first[0]) { strcpy(o.first, ob.first); strcpy(o.firstmsg, ob.firstmsg); } if (ob.capped || ob.timed_out || ob.first[0]) break; bound_done = pb; }
         }
         memset(r, 0, sizeof *r);
-        r->cases = (uint64_t)o.states; r->calls = (uint64_t)o.trans; r->validated = (uint64_t)o.execs; r->cls[0] = (uint64_t)o.execs; r->cls[1] = (uint64_t)o.races; r->cls[2] = (uint64_t)o.divergent;
-        r->timed_out = !complete && bound_done < 0 && !o.first[0];
-        if (o.first[0]) { char key[100]; snprintf(key, sizeof key, "c20:%s:H%d", o.races ? "race" : o.cross ? "cross-thread" : "not-serial", HARNESS); res_viol(r, key, o.first, "harness H%d: %s", HARNESS, o.firstmsg); }
+        r->cases = (uint64_t)o.states; r->calls = (uint64_t)o.trans; r->validated = (uint64_t)o.execs; r->cls[0] = (uint64_t)o.execs; r->cls[1] = (uint64_t)o.races; r->cls[2] = (uint64_t)o.divergent; r->cls[3] = (uint64_t)o.stuck;
+        r->timed_out = !complete && !sync_complete && bound_done < 0 && !o.first[0];
+        if (o.first[0]) { char key[100]; snprintf(key, sizeof key, "c20:%s:H%d", o.races ? "race" : o.cross ? "cross-thread" : o.stuck ? "no-progress" : "not-serial", HARNESS); res_viol(r, key, o.first, "harness H%d: %s", HARNESS, o.firstmsg); }
+        if (pre_bad) { res_viol(r, "c20:harness-precondition", "", "harness H%d: run alone, a refused phrase or image did not get the unsupported-feature status", HARNESS); }
+        if (serial_stuck) { res_viol(r, "c20:serial-stuck", "", "harness H%d: a script run alone never finishes (spins on an atomic object)", HARNESS); }
         char pp[100] = ""; for (int t = 0; t < NT; t++) snprintf(pp + strlen(pp), sizeof pp - strlen(pp), "%s%d", t ? "+" : "", ref_pts[t]);
         res_sample(r, "H%d: %d threads, shared-access points per thread %s, %ld executions, %llu distinct joint transcripts, max preemptions in one execution %d", HARNESS, NT, pp, o.execs, (unsigned long long)o.distinct_tr, o.max_preempt);
-        char name[160]; snprintf(name, sizeof name, "H%d (%d threads): %s", HARNESS, NT, HARNESS == 1 ? "create, encode(es), decode(auto), free" : HARNESS == 2 ? "load, crypt, keygen, encode(jp), decode_explicit, free" : HARNESS == 6 ? "libc allocator (alloc/free entries NULL): create, free, create, store, load, free" : HARNESS == 5 ? "3 x (create, encode, decode(auto), free) in es / fr / en, coin 9" : HARNESS == 4 ? "load+encode(zh_t)+decode(auto)+crypt(non-ASCII) | create+encode(ko)+store+decode_explicit" : "create+encode | load+encode+decode_explicit | load+crypt+keygen, all English / coin 1");
-        char note[200]; snprintf(note, sizeof note, "%s; states = distinct (shared data, progress, values read, running thread) keys; transitions = enabled choices", complete ? "all interleavings explored (complete, no preemption bound)" : bound_done >= 0 ? "state cap hit without bound; completed with preemption bound (see e3_preemption_bound)" : "stopped early");
+        char name[160]; snprintf(name, sizeof name, "H%d (%d threads): %s", HARNESS, NT, HARNESS == 1 ? "create, encode(es), decode(auto), free" : HARNESS == 2 ? "load, crypt, keygen, encode(jp), decode_explicit, free" : HARNESS == 6 ? "libc allocator (alloc/free entries NULL): create, free, create, store, load, free" : HARNESS == 7 ? "decode(auto) of a refused phrase (feature not enabled) + decode_explicit + refused load | decode(auto, es) + refused decode_explicit + decode(auto)" : HARNESS == 8 ? "shared recycling pool allocator: load, free, create, store, free | create, store, free, load, free" : HARNESS == 5 ? "3 x (create, encode, decode(auto), free) in es / fr / en, coin 9" : HARNESS == 4 ? "load+encode(zh_t)+decode(auto)+crypt(non-ASCII) | create+encode(ko)+store+decode_explicit" : "create+encode | load+encode+decode_explicit | load+crypt+keygen, all English / coin 1");
+        char note[200]; snprintf(note, sizeof note, "%s; states = distinct (shared data, progress, values read, running thread) keys; transitions = enabled choices", complete ? "all interleavings explored (complete, no preemption bound)" : sync_complete ? "too large at access granularity; all interleavings at synchronisation granularity (library atomics) explored, race detector on every execution; access granularity up to the preemption bound in e3_preemption_bound" : bound_done >= 0 ? "state cap hit without bound; completed with preemption bound (see e3_preemption_bound)" : "stopped early");
         out_part(name, r, CLS, note);
         char k[64]; snprintf(k, sizeof k, "e3_H%d_complete", HARNESS); out_kv_int(k, complete); snprintf(k, sizeof k, "e3_H%d_preemption_bound", HARNESS); out_kv_int(k, complete ? -1 : bound_done); snprintf(k, sizeof k, "e3_H%d_executions", HARNESS); out_kv_int(k, o.execs);
         for (int t = 0; t < NT; t++) { snprintf(k, sizeof k, "e3_H%d_points_t%d", HARNESS, t); out_kv_int(k, ref_pts[t]); }
+        snprintf(k, sizeof k, "e3_H%d_library_atomic_ops", HARNESS); out_kv_int(k, o.atomics);
+        snprintf(k, sizeof k, "e3_H%d_sync_granularity_complete", HARNESS); out_kv_int(k, complete ? -1 : sync_complete); snprintf(k, sizeof k, "e3_H%d_sync_granularity_executions", HARNESS); out_kv_int(k, sync_execs);
     }
     out_kv_int("e3_shared_bytes", (long long)shsz);
     out_end();
